@@ -24,13 +24,14 @@ import (
 type c16Case struct {
 	CfgKey   string `json:"cfg_key"`   // ServeConfig.MagicCookieKey (may be empty)
 	CfgValue string `json:"cfg_value"` // ServeConfig.MagicCookieValue (may be empty)
-	EnvMode  string `json:"env_mode"`  // unset | empty | prefix | suffix | case | other | exact
-	Kind     string `json:"kind"`      // netrpc | grpc | dual
-	GRPC     bool   `json:"grpc"`      // ServeConfig.GRPCServer set
-	TLS      string `json:"tls"`       // "" | static | auto (PLUGIN_CLIENT_CERT given)
-	Versions []int  `json:"versions"`  // versioned sets (empty: legacy version 1)
-	MuxEnv   string `json:"mux_env"`   // unset | empty | true | false | junk | 1
-	Session  bool   `json:"session"`   // drive a whole client session through a tee-ing runner
+	EnvMode  string `json:"env_mode"`  // unset | empty | prefix | suffix | case | other | exact | padded (the value wrapped in blanks, line ends or quotes)
+	Pad      int    `json:"pad,omitempty"`
+	Kind     string `json:"kind"`     // netrpc | grpc | dual
+	GRPC     bool   `json:"grpc"`     // ServeConfig.GRPCServer set
+	TLS      string `json:"tls"`      // "" | static | auto (PLUGIN_CLIENT_CERT given)
+	Versions []int  `json:"versions"` // versioned sets (empty: legacy version 1)
+	MuxEnv   string `json:"mux_env"`  // unset | empty | true | false | junk | 1
+	Session  bool   `json:"session"`  // drive a whole client session through a tee-ing runner
 }
 
 var c16Seq int64
@@ -45,7 +46,10 @@ func c16Gen(t *rapid.T) any {
 	case 2:
 		c.CfgValue = ""
 	}
-	c.EnvMode = []string{"exact", "unset", "empty", "prefix", "suffix", "case", "other"}[weighted(t, "envmode", 46, 9, 9, 9, 9, 9, 9)]
+	c.EnvMode = []string{"exact", "unset", "empty", "prefix", "suffix", "case", "other", "padded"}[weighted(t, "envmode", 40, 8, 8, 8, 8, 8, 8, 12)]
+	if c.EnvMode == "padded" {
+		c.Pad = uniform(t, "pad", len(c16Pads))
+	}
 	c.Kind = oneOf(t, "kind", []string{"netrpc", "grpc", "dual"})
 	c.GRPC = c.Kind == "grpc" || rapid.Bool().Draw(t, "grpcserver")
 	c.TLS = []string{"", "static", "auto"}[weighted(t, "tls", 60, 20, 20)]
@@ -81,6 +85,9 @@ func (c *c16Case) pluginSpec() PluginSpec {
 	return ps
 }
 
+// what a shell script, a .env file or a container spec easily adds around a value
+var c16Pads = [][2]string{{" ", ""}, {"", " "}, {"", "\n"}, {"", "\r\n"}, {"\t", ""}, {" ", " "}, {"\"", "\""}, {"'", "'"}, {"", "\t"}, {"\n", ""}}
+
 func (c *c16Case) cookieEnv() (string, bool) {
 	v := c.CfgValue
 	switch c.EnvMode {
@@ -106,6 +113,9 @@ func (c *c16Case) cookieEnv() (string, bool) {
 		return sw, true
 	case "other":
 		return "someothervalue", true
+	case "padded":
+		p := c16Pads[c.Pad%len(c16Pads)]
+		return p[0] + v + p[1], true
 	}
 	return v, true
 }
@@ -118,7 +128,7 @@ func c16Run(ci any) (out Outcome) {
 	out.label("env:%s", c.EnvMode)
 	out.label("mux:%s", c.MuxEnv)
 	out.label("tls:%s", c.TLS)
-	out.NonTrivial = c.EnvMode == "prefix" || c.EnvMode == "suffix" || c.EnvMode == "case" || (c.EnvMode == "exact" && (c.MuxEnv != "unset" || c.TLS != ""))
+	out.NonTrivial = c.EnvMode == "padded" || c.EnvMode == "prefix" || c.EnvMode == "suffix" || c.EnvMode == "case" || (c.EnvMode == "exact" && (c.MuxEnv != "unset" || c.TLS != ""))
 	if c.Session {
 		out.label("session")
 		return c16Session(c, caseDir, out)
@@ -372,7 +382,7 @@ var propC16 = register(&Prop{
 	Gen: c16Gen,
 	New: func() any { return &c16Case{} },
 	Run: c16Run,
-	Rule: "rapid draws the configured cookie key/value (incl. empty key or value), the environment's cookie (unset, empty, prefix, suffix, case change, other, exact), a serve configuration (plugin-type kind, GRPCServer, TLS none/static/AutoMTLS cert given, legacy or versioned sets) " +
+	Rule: "rapid draws the configured cookie key/value (incl. empty key or value), the environment's cookie (unset, empty, prefix, suffix, case change, other, exact, exact value wrapped in blanks / line ends / quotes), a serve configuration (plugin-type kind, GRPCServer, TLS none/static/AutoMTLS cert given, legacy or versioned sets) " +
 		"and PLUGIN_MULTIPLEX_GRPC (unset, empty, true, false, junk, 1). The real plugin binary is executed directly with exactly that environment, or (right cookie) driven through a whole client session behind a stdout-teeing runner. " +
 		"Oracle: wrong cookie => exit status 1, empty stdout, no file in its socket directory; right cookie => first line has exactly 6 fields (7 iff the mux variable is non-empty) with the expected core/version/protocol/cert fields, an immediate connect to the announced address succeeds, " +
 		"and over a whole session (dispense, synced stdio traffic, graceful Kill) the raw stdout is that line and nothing else. Non-trivial: near-miss cookie, or right cookie with the mux variable set or TLS on.",
